@@ -508,6 +508,7 @@ def run_world(rng, spec):
         out["cmp"].append(case)
         # ------------------------------------------------------------------ oracles on the implementation alone
         wjson = lambda: world_json(spec, cvrs, mvrs, contests, sample, extra={"contest": cid, "assertion": a})
+        case["world"] = wjson()
         out["runs"] += 1
         # C03: the assorter must be defined on the records the identity is about
         if aerrs and con["atype"] != "POLLING":
@@ -743,7 +744,7 @@ def run_spv(M, ids, wr, spec, contests, audit, cvrs, mvrs, sample, all_asns, tab
                 out["oracle"].append({"what": "a datum handed to the test lies outside [0, test.u]", "input": inp(),
                                       "observed": {"data": d_call, "test.u": u_call}, "signature": "C06:data-outside-u",
                                       "prop": "C06"})
-    return {"objs": obj_lits, "asns": asns_lit, "setall": setall, "impl_setall": impl_setall,
+    return {"world": world_json(spec, cvrs, mvrs, contests, sample), "objs": obj_lits, "asns": asns_lit, "setall": setall, "impl_setall": impl_setall,
             "mvrs": [n + i for i in sample], "cvrs": list(sample), "impl": impl,
             "meta": {"assertions": [(c["id"], a) for c, a, _ in all_asns]}}
 
@@ -763,7 +764,11 @@ def world_json(spec, cvrs, mvrs, contests, sample, extra=None):
 
 
 def case_json(case):
-    return {k: C.jsonable(v) for k, v in case.items() if k not in ("tab",)} | {"tab": C.jsonable(case.get("tab"))}
+    """replay form of a case: the readable world first, then the raw fields (Coq literals of the records last)"""
+    d = {"world": case.get("world"), "meta": C.jsonable(case.get("meta"))}
+    d.update({k: C.jsonable(v) for k, v in case.items() if k not in ("world", "meta", "objs")})
+    d["objs"] = case.get("objs")
+    return d
 
 
 def run_worlds(ctx, n_worlds):
